@@ -336,8 +336,8 @@ SubExprs(e) == {e} \cup LET ks == Kids(e) IN UNION {SubExprs(ks[j]) : j \in DOMA
 \* ---- fragile points (DESIGN.md section 4, rule 3) ------------------------------------------------------
 \* Floating point reproduces the rationals exactly as long as a model only adds, subtracts and multiplies
 \* (all constants are k/2^m); then even a tie in a comparison is decided identically by every correct
-\* re-arrangement of the expression, and boundary points are fully checked.  Once a model divides, takes
-\* powers or calls a transcendental function, a comparison whose operands are EQUAL (or undecided for the
+\* re-arrangement of the expression, and boundary points are fully checked.  Once a model divides (by
+\* anything but the literals 1, 2, 1/2), takes powers (other than natural literal ones) or calls a transcendental function, a comparison whose operands are EQUAL (or undecided for the
 \* specification) at the point, and any floor-like operation, may legitimately flip: the point is fragile.
 RECURSIVE HasTag(_, _), HasTie(_, _)
 HasTag(e, tags) == e.k \in tags \/ LET ks == Kids(e) IN \E j \in DOMAIN ks : HasTag(ks[j], tags)
@@ -348,7 +348,12 @@ HasTie(e, env) ==
                  r == Eval(e.args[j + 1], env, FT)
              IN IF RatV(l) /\ RatV(r) THEN l = r ELSE TRUE
     \/ LET ks == Kids(e) IN \E j \in DOMAIN ks : HasTie(ks[j], env)
-Inexact(cc) == \E f \in FnsOf(cc) : HasTag(f.e, {"div", "pow", "fn", "const"})
+\* exact in binary floating point: division by the literals 1, 2, 1/2 and powers with a natural literal exponent
+InexactNode(e) ==
+    \/ e.k \in {"fn", "const"}
+    \/ e.k = "div" /\ ~(e.b.k = "num" /\ e.b.v \in {One, RFromInt(2), R(1, 2)})
+    \/ e.k = "pow" /\ ~(e.b.k = "num" /\ IsInt(e.b.v) /\ e.b.v.n >= 0)
+Inexact(cc) == \E f \in FnsOf(cc) : \E s \in SubExprs(f.e) : InexactNode(s)
 Steppy(cc)  == \E f \in FnsOf(cc) : HasTag(f.e, {"floordiv", "mod"}) \/ \E s \in SubExprs(f.e) : s.k = "fn" /\ s.name \in {"floor", "ceil"}
 Uses(cc) ==
     {[fn |-> cc.der[d].fn, args |-> cc.der[d].args] : d \in DOMAIN cc.der}
